@@ -87,7 +87,7 @@ CHECKS.update({
             "Deterministic part: after every request the broker stand-in's publish log grew by exactly one message {pusher, DUID, new end of log} per datatype that stored operations and by none otherwise. Realtime part: 2-5 REALTIME SDK clients only issue local operations; after logical quiescence all hold equal state with nothing left to push, also after epilogues steered by logical events (push in flight + second local operation + delayed earlier notification; later foreign push announced during the flight) and after a notification naming another datatype id on the key's topic; own notifications trigger no pull.",
             TRUST_SVC + " 'Eventually' is decided as bounded progress to logical quiescence (60 s watchdog => inconclusive). Race reports of this workload are advisory (counted, decided under C20).", "DESIGN.md §4 C18"),
     "C20": ("exploration", "Go race detector + runtime monitors on real parallel use of one datatype: conservation, gapless id order, transaction contiguity and isolation, porcupine linearizability of return values, deadlock/panic watchdog",
-            "2-8 goroutines issue operations and transactions on one datatype of each type while a background goroutine syncs with the real service and remote operations arrive, with yields injected inside BeginTransaction / unlock; the counter equals the sum of successful deltas, every successful call is queued exactly once in identifier order, transaction units are contiguous and isolated (also as seen by a pack observer reading CreatePushPullPack while units are in progress: a pack never ends inside a unit), return values are linearizable, no deadlock / panic, and race reports are classified (mutator paths: violation; unlocked public readers: known finding).",
+            "2-8 goroutines issue operations and transactions (a quarter aborted by their own body; documents: also through child handles kept from inside a transaction body) on one datatype of each type while a background goroutine syncs with the real service and remote operations arrive, with yields injected inside BeginTransaction / unlock; the counter equals the sum of successful deltas, every successful call is queued exactly once in identifier order, transaction units are contiguous and isolated (also as seen by a pack observer reading CreatePushPullPack while units are in progress: a pack never ends inside a unit), the second client's recognisable units are never seen half-applied inside a local transaction, a transaction that fails after staying open while a pending call was pushed and acknowledged leaves nothing behind, return values are linearizable, no deadlock / panic, and race reports are classified (mutator paths: violation; unlocked public readers: known finding).",
             TRUST_SVC + " One known finding (readers outside the lock) is listed in known_findings.json.", "DESIGN.md §4 C20"),
 })
 
